@@ -58,9 +58,9 @@ def parseSOp (members : List String) (j : Json) : R Op := do
     return .writeStruct (← parseDict v) (← wresWith parseDict wA) (fun m => ((members.zip ws).lookup m).getD (.fail .secop))
   | [.str "readMember", m, rA, rB] =>
     return .readMember (← m.getStr?) (← rresWith parseDict rA) (← rresWith (·.getInt?) rB)
-  | [.str "writeMember", m, v, wA, rA, wB] =>
+  | [.str "writeMember", m, v, wA, rA, wB, rB] =>
     return .writeMember (← m.getStr?) (← v.getInt?) (← wresWith parseDict wA) (← rresWith parseDict rA)
-      (← wresWith (·.getInt?) wB)
+      (← wresWith (·.getInt?) wB) (← rresWith (·.getInt?) rB)
   | [.str "assignStruct", v] => return .driverAssignStruct (← parseDict v)
   | [.str "assignMember", m, v] => return .driverAssignMember (← m.getStr?) (← v.getInt?)
   | _ => throw s!"bad struct op {j.compress}"
@@ -70,13 +70,15 @@ def evJson : Ev → Json
   | .mem m x => jarr [Json.str "mem", Json.str m, jint x]
 
 def stJson (s : St) : Json :=
-  Json.mkObj [("struct", jdict s.struct), ("mem", jdict s.mem), ("evs", jarr (s.evs.map evJson)), ("ok", Json.bool s.ok),
-              ("exc", jexc s.exc)]
+  Json.mkObj [("struct", jdict s.struct), ("mem", jdict s.mem), ("sP", Json.bool s.sP),
+              ("mP", jarr (s.mem.map (fun e => Json.bool (s.mP.contains e.1)))),
+              ("evs", jarr (s.evs.map evJson)), ("ok", Json.bool s.ok), ("exc", jexc s.exc)]
 
 def structCfg (j : Json) : R Cfg := do
   let hr ← fldStrs j "hasR"; let hw ← fldStrs j "hasW"
-  return { members := ← fldStrs j "members", combined := ← fldBool j "combined",
-           hasR := fun m => hr.contains m, hasW := fun m => hw.contains m }
+  return { members := ← fldStrs j "members", hasRS := ← fldBool j "hasRS", hasWS := ← fldBool j "hasWS",
+           hasR := fun m => hr.contains m, hasW := fun m => hw.contains m,
+           omitUnch := match j.getObjVal? "omit" with | .ok (.bool b) => b | _ => false }
 
 /-! float/enum -/
 
@@ -101,18 +103,38 @@ def fevJson : FEv → Json
   | .idx i => jarr [Json.str "idx", jint i]
 
 def fstJson (s : FSt) : Json :=
-  Json.mkObj [("idx", jint s.idx), ("value", jint s.value), ("evs", jarr (s.evs.map fevJson)), ("ok", Json.bool s.ok),
-              ("exc", jexc s.exc)]
+  Json.mkObj [("idx", jint s.idx), ("value", jint s.value), ("idxErr", Json.bool s.idxErr), ("valErr", Json.bool s.valErr),
+              ("evs", jarr (s.evs.map fevJson)), ("ok", Json.bool s.ok), ("exc", jexc s.exc)]
 
 def parseFRec (j : Json) : R FRec := do
-  return { write := ← optInt (← fld j "write"), ok := ← fldBool j "ok", selected := ← optInt (← fld j "selected"),
+  return { write := ← optInt (← fld j "write"), assign := ← optInt (← fld j "assign"), ok := ← fldBool j "ok",
+           selected := ← optInt (← fld j "selected"),
            idx := ← fldInt j "idx", value := ← fldInt j "value" }
+
+def parseLabelSpec (j : Json) : R LabelSpec := do
+  match (← arr j) with
+  | [i, l, v, d] => return { idx := ← optInt i, label := ← l.getStr?, value := ← optInt v, derived := ← optInt d }
+  | _ => throw "bad label spec"
 
 /-! limits -/
 
+def parseCRes (j : Json) : R CRes :=
+  match j with
+  | .str "pass" => pure .pass
+  | .str "stop" => pure .stop
+  | .str t => match excKind? t with
+    | some k => pure (.fail k)
+    | none => throw s!"bad check outcome {t}"
+  | _ => throw "bad check outcome"
+
+def parseLayer (j : Json) : R Layer := do
+  match (← arr j) with
+  | [a, b, c, d] => return { declMin := ← a.getBool?, declMax := ← b.getBool?, declLimits := ← c.getBool?, ownCheck := ← d.getBool? }
+  | _ => throw "bad layer"
+
 def parseLOp (j : Json) : R LOp := do
   match (← arr j) with
-  | [.str "write", x, w] => return .write (← x.getInt?) (← wresWith (·.getInt?) w)
+  | [.str "write", x, c, w] => return .write (← x.getInt?) (← (← arr c).mapM parseCRes) (← wresWith (·.getInt?) w)
   | [.str "writeMin", x] => return .writeMin (← x.getInt?)
   | [.str "writeMax", x] => return .writeMax (← x.getInt?)
   | [.str "writeLimits", a, b] => return .writeLimits (← a.getInt?) (← b.getInt?)
@@ -130,7 +152,9 @@ def levJson : LEv → Json
 
 def lstJson (s : LSt) : Json :=
   Json.mkObj [("value", jint s.value), ("min", jint s.min), ("max", jint s.max),
-              ("limits", jarr [jint s.limits.1, jint s.limits.2]), ("evs", jarr (s.evs.map levJson)), ("ok", Json.bool s.ok),
+              ("limits", jarr [jint s.limits.1, jint s.limits.2]),
+              ("errs", jarr [Json.bool s.vErr, Json.bool s.minErr, Json.bool s.maxErr, Json.bool s.limErr]),
+              ("evs", jarr (s.evs.map levJson)), ("ok", Json.bool s.ok),
               ("exc", jexc s.exc)]
 
 def optPair (j : Json) : R (Option (Val × Val)) := do
@@ -143,13 +167,13 @@ def parseLimits (j : Json) : R Limits := do
   return { min := ← optInt (← fld j "min"), max := ← optInt (← fld j "max"), limits := ← optPair (← fld j "limits") }
 
 def parseLRec (j : Json) : R LRec := do
-  return { write := ← optInt (← fld j "write"), echo := ← fldBool j "echo", setLimits := ← optPair (← fld j "setLimits"),
+  return { write := ← optInt (← fld j "write"), stopAt := ← optNat (← fld j "stopAt"), echo := ← fldBool j "echo", setLimits := ← optPair (← fld j "setLimits"),
            ok := ← fldBool j "ok", before := ← parseLimits (← fld j "before"), after := ← parseLimits (← fld j "after"),
            value := ← fldInt j "value" }
 
 def lcfg (j : Json) : R LCfg := do
-  return { lo := ← fldInt j "lo", hi := ← fldInt j "hi", hasMin := ← fldBool j "hasMin", hasMax := ← fldBool j "hasMax",
-           hasLimits := ← fldBool j "hasLimits", hasW := ← fldBool j "hasW" }
+  return { lo := ← fldInt j "lo", hi := ← fldInt j "hi", layers := ← (← fldArr j "layers").mapM parseLayer,
+           hasW := ← fldBool j "hasW", omitUnch := ← fldBool j "omit" }
 
 /-! control -/
 
@@ -165,7 +189,13 @@ def parseCOp (j : Json) : R Frappy.Control.Op := do
 
 def controlCfg (j : Json) : R (Frappy.Control.Cfg × List Nat) := do
   let outs ← fldNats j "outs"
-  return ({ n := outs.length, nout := ← fldNat j "nout", outOf := fun i => outs.getD i 0 }, outs)
+  let om := match j.getObjVal? "omit" with | .ok (.bool b) => b | _ => false
+  return ({ n := outs.length, nout := ← fldNat j "nout", outOf := fun i => outs.getD i 0, omitUnch := om }, outs)
+
+def optBools (j : Json) (k : String) : List Bool :=
+  match j.getObjVal? k with
+  | .ok (.arr a) => a.toList.map (fun x => match x with | .bool b => b | _ => false)
+  | _ => []
 
 def cevJson : Frappy.Control.Ev → Json
   | .cb o c => jarr [Json.str "cb", jnat o, jopt jnat c]
@@ -174,6 +204,8 @@ def cevJson : Frappy.Control.Ev → Json
 def cstJson (cfg : Frappy.Control.Cfg) (s : Frappy.Control.St) : Json :=
   Json.mkObj [("cb", jarr ((List.range cfg.nout).map (fun o => jopt jnat (s.cb o)))),
               ("act", jarr ((List.range cfg.n).map (fun i => Json.bool (s.act i)))),
+              ("cbP", jarr ((List.range cfg.nout).map (fun o => Json.bool (s.cbP o)))),
+              ("actP", jarr ((List.range cfg.n).map (fun i => Json.bool (s.actP i)))),
               ("evs", jarr (s.evs.map cevJson)), ("ok", Json.bool s.ok)]
 
 /-- the output whose `strong` expectation ends with this operation: a direct `deactivate_control` of one of its inputs -/
@@ -209,7 +241,12 @@ def handle (j : Json) : R Json := do
   match k with
   | "struct" =>
     let cfg ← structCfg j; let ops ← (← fldArr j "ops").mapM (parseSOp cfg.members)
-    return Json.mkObj [("init", stJson (init cfg)), ("states", jarr ((run cfg (init cfg) ops).map stJson))]
+    let sP0 := match j.getObjVal? "sP0" with | .ok (.bool b) => b | _ => false
+    let mP0 := match j.getObjVal? "mP0" with
+      | .ok (.arr a) => a.toList.filterMap (fun x => match x with | .str m => some m | _ => none)
+      | _ => []
+    let s0 : St := { init cfg with sP := sP0, mP := mP0 }
+    return Json.mkObj [("init", stJson s0), ("states", jarr ((run cfg s0 ops).map stJson))]
   | "judge_struct" =>
     let members ← fldStrs j "members"
     let trace ← (← fldArr j "trace").mapM (fun e => do
@@ -219,25 +256,36 @@ def handle (j : Json) : R Json := do
     return verdict (judgeStruct members trace 0) (badIdxs (fun e => membersAgreeB members e.1 e.2) trace 0)
   | "floatenum" =>
     let cfg : FCfg := { vdict := ← parseVdict (← fld j "vdict"), lo := ← fldInt j "lo", hi := ← fldInt j "hi",
-                        hasR := ← fldBool j "hasR", hasW := ← fldBool j "hasW" }
+                        hasR := ← fldBool j "hasR", hasW := ← fldBool j "hasW", omitUnch := ← fldBool j "omit" }
     let ops ← (← fldArr j "ops").mapM parseFOp
-    let s0 := finit cfg (← fldInt j "idx0")
+    let s0 := finit cfg (← fldInt j "idx0") (← fldBool j "idxErr0") (← fldBool j "valErr0")
     return Json.mkObj [("init", fstJson s0), ("states", jarr ((frun cfg s0 ops).map fstJson))]
   | "judge_floatenum" =>
     let vdict ← parseVdict (← fld j "vdict")
     let trace ← (← fldArr j "trace").mapM parseFRec
     return verdict (judgeFloatEnum vdict trace 0) (badIdxs (floatEnumOkB vdict) trace 0)
+  | "labels" =>
+    let specs ← (← fldArr j "specs").mapM parseLabelSpec
+    match parseLabels specs with
+    | none => return Json.mkObj [("ok", Json.bool false)]
+    | some r => return Json.mkObj [("ok", Json.bool true),
+        ("edict", jarr (r.edict.map (fun e => jarr [Json.str e.1, jint e.2]))),
+        ("vdict", jarr (r.vdict.map (fun e => jarr [jint e.1, jint e.2]))), ("lo", jint r.lo), ("hi", jint r.hi)]
   | "limits" =>
     let cfg ← lcfg j; let ops ← (← fldArr j "ops").mapM parseLOp
-    let s0 := linit cfg (← fldInt j "value0")
+    let errs ← (← fldArr j "errs0").mapM (·.getBool?)
+    let s0 := linit cfg (← fldInt j "value0") (errs.getD 0 false) (errs.getD 1 false) (errs.getD 2 false) (errs.getD 3 false)
     return Json.mkObj [("init", lstJson s0), ("states", jarr ((lrun cfg s0 ops).map lstJson))]
   | "judge_limits" =>
+    let layers ← (← fldArr j "layers").mapM parseLayer
     let trace ← (← fldArr j "trace").mapM parseLRec
-    return verdict (judgeLimits trace 0) (badIdxs limitsOkB trace 0)
+    return verdict (judgeLimits layers trace 0) (badIdxs (limitsOkB layers) trace 0)
   | "control" =>
     let (cfg, _) ← controlCfg j; let ops ← (← fldArr j "ops").mapM parseCOp
-    return Json.mkObj [("init", cstJson cfg Frappy.Control.init),
-                       ("states", jarr ((Frappy.Control.run cfg Frappy.Control.init ops).map (cstJson cfg)))]
+    let cbP0 := optBools j "cbP0"; let actP0 := optBools j "actP0"
+    let s0 : Frappy.Control.St := { Frappy.Control.init with cbP := fun o => cbP0.getD o false, actP := fun i => actP0.getD i false }
+    return Json.mkObj [("init", cstJson cfg s0),
+                       ("states", jarr ((Frappy.Control.run cfg s0 ops).map (cstJson cfg)))]
   | "judge_control" =>
     let (cfg, outs) ← controlCfg j; let ops ← (← fldArr j "ops").mapM parseCOp
     let sts ← (← fldArr j "trace").mapM parseCState
